@@ -28,7 +28,37 @@ K = dict(attr_guards=0.3, cbs=0.5, conv=0.3, guards=0.4, validators=0.2, sends=0
 MODNAME = "c17_scenario_module"
 
 
+def d25_probe(sc):
+    """`unless="blocked"` provided by the model (False) and by a listener attached later (True): the original
+    refuses the event; its deep copy / pickle copy must refuse it too"""
+    import copy
+    import pickle
+    from statemachine.exceptions import TransitionNotAllowed
+    import harness.c17_d25_machine as mod
+
+    def fires(sm):
+        try:
+            sm.send("open")
+            return True
+        except TransitionNotAllowed:
+            return False
+    bad = []
+    with warnings.catch_warnings():
+        warnings.simplefilter("ignore")
+        sm = mod.Door(mod.Mdl())
+        sm.add_listener(mod.Sensor())
+        clone = copy.deepcopy(sm) if sc["how"] == "deepcopy" else pickle.loads(pickle.dumps(sm))
+        r_orig, r_clone = fires(sm), fires(clone)
+    if r_orig:
+        bad.append("the original fired although the late listener is blocked")
+    if r_clone != r_orig:
+        bad.append(f"original fired={r_orig}, its {sc['how']} clone fired={r_clone}")
+    return {"probe": "d25", "bad": bad}
+
+
 def run_impl(sc):
+    if sc.get("probe") == "d25":
+        return d25_probe(sc)
     if sc.get("probe") == "copy_attach":
         from . import c12
         return c12.copy_attach_probe(sc)
@@ -198,6 +228,8 @@ def coq_case(sc, obs):
 
 
 def render_source(sc):
+    if sc.get("probe") == "d25":
+        return "# probe: " + " ".join(d25_probe.__doc__.split()) + f" ({sc['how']})\n"
     if sc.get("probe"):
         return "# probe: a listener attached to only one of a machine and its shallow / deep copy (see harness/c12.py)\n"
     return (eng.render_source(dict(sc, ops=[])) +
@@ -257,6 +289,8 @@ def generate(rng, tier):
     for k in range(12):
         scs.append({"probe": "copy_attach", "seed": rng.randrange(10 ** 6), "first": ["copy", "deepcopy"][k % 2],
                     "side": ["copy", "original"][(k // 2) % 2]})
+    scs.append({"probe": "d25", "how": "deepcopy"})
+    scs.append({"probe": "d25", "how": "pickle"})
     return scs, [("seeded random machines (sync / async, rtc on/off, allow flag, start_value, stored state, state "
                   "values, listeners) cloned with deepcopy or pickle after a random prefix (also before any event, "
                   "i.e. before the activation of an async machine), then original and clone driven alternately with "
@@ -288,7 +322,11 @@ def extra_coverage(scs, obs, verdicts):
     return {"scenario_histogram": dict(h), "out_of_scope": sum(1 for v in verdicts if v == 9)}
 
 
-CLASSIFIERS = {}
+def d25(sc, v):
+    return sc.get("probe") == "d25"
+
+
+CLASSIFIERS = {"C17.clone_regroups_unless_providers": d25}
 
 
 def explain(sc, obs):
